@@ -29,6 +29,7 @@ type Environment struct {
 	cantCache bool
 	function  *Function
 	registers [NumRegisters]int64
+	regNames  [NumRegisters]string // the variables currently living in registers (they are still variables of this environment).
 	numReg    int
 	funcGen   int64 // bumped when a top level function binding is replaced or deleted (memoized results may be stale).
 }
@@ -203,6 +204,7 @@ func (e *Environment) MakeRegister(originalName string, v int64) Register {
 		panic(fmt.Sprintf("No more registers available for %s (%d) have %v", originalName, v, e.registers))
 	}
 	e.registers[e.numReg] = v
+	e.regNames[e.numReg] = originalName
 	tok := token.Intern(token.REGISTER, originalName)
 	r := Register{RefEnv: e, Idx: e.numReg, Base: ast.Base{Token: tok}}
 	e.numReg++
@@ -222,10 +224,39 @@ func (e *Environment) ReleaseRegister(register Register) {
 	e.numReg--
 }
 
+// local returns what name is bound to in this very environment; a variable currently held in a register
+// (integer parameter, loop variable) is still a variable of the environment for everybody who gets to it by name:
+// eval("n"), a function called from the loop body that reads the loop variable...
+func (e *Environment) local(name string) (Object, bool) {
+	for i := e.numReg - 1; i >= 0; i-- {
+		if e.regNames[i] == name {
+			return Integer{Value: e.registers[i]}, true
+		}
+	}
+	obj, ok := e.store[name]
+	return obj, ok
+}
+
+// setLocal binds name in this very environment, through its register when the variable currently lives in one.
+func (e *Environment) setLocal(name string, val Object) Object {
+	for i := e.numReg - 1; i >= 0; i-- {
+		if e.regNames[i] == name {
+			iv, ok := val.(Integer)
+			if !ok {
+				return Error{Value: "register assignment of non integer: " + val.Inspect()}
+			}
+			e.registers[i] = iv.Value
+			return val
+		}
+	}
+	e.store[name] = val
+	return val
+}
+
 func (e *Environment) makeRef(name string) (*Reference, bool) {
 	orig := e
 	for e.outer != nil {
-		obj, ok := e.outer.store[name]
+		obj, ok := e.outer.local(name)
 		if !ok {
 			e = e.outer
 			continue
@@ -258,9 +289,9 @@ func (e *Environment) Get(name string) (Object, bool) {
 		}
 		return nil, false
 	}
-	obj, ok := e.store[name]
+	obj, ok := e.local(name)
 	if r, isRef := obj.(Reference); ok && isRef {
-		if _, bound := r.RefEnv.store[r.Name]; !bound {
+		if _, bound := r.RefEnv.local(r.Name); !bound {
 			// The variable was deleted (del) after this reference was made: the name is not bound anymore.
 			delete(e.store, name)
 			obj, ok = nil, false
@@ -356,6 +387,20 @@ func (e *Environment) IsRef(name string) (*Environment, string) {
 	return nil, ""
 }
 
+// IsOuter tells if name is (or would resolve to) a variable of an enclosing environment rather than a local one.
+func (e *Environment) IsOuter(name string) bool {
+	if _, ok := e.local(name); ok {
+		ne, _ := e.IsRef(name)
+		return ne != nil
+	}
+	for o := e.outer; o != nil; o = o.outer {
+		if _, ok := o.local(name); ok {
+			return true
+		}
+	}
+	return false
+}
+
 // noteRebind records that name is about to be re-bound (or deleted when val is nil) in e: if this replaces a
 // top level function, results memoized through it are stale.
 func (e *Environment) noteRebind(name string, val Object) {
@@ -387,8 +432,7 @@ func (e *Environment) create(name string, val Object) Object {
 	}
 	val = Value(val)
 	e.noteRebind(name, val)
-	e.store[name] = val
-	return val
+	return e.setLocal(name, val)
 }
 
 func (e *Environment) update(name string, found, val Object) Object {
@@ -400,11 +444,10 @@ func (e *Environment) update(name string, found, val Object) Object {
 		name = rr.Name
 	}
 	e.noteRebind(name, val)
-	e.store[name] = val
 	if e.depth == 0 {
 		e.numSet++
 	}
-	return val
+	return e.setLocal(name, val)
 }
 
 // create force the creation of a new entry, even if had a previous value or ref.
@@ -414,7 +457,7 @@ func (e *Environment) SetNoChecks(name string, val Object, create bool) Object {
 		log.Debugf("SetNoChecks(%s) forced create to %d", name, e.depth)
 		return e.create(name, val)
 	}
-	r, ok := e.store[name] // is this an update? possibly of an existing ref.
+	r, ok := e.local(name) // is this an update? possibly of an existing ref.
 	if ok {
 		return e.update(name, r, val)
 	}
@@ -422,8 +465,8 @@ func (e *Environment) SetNoChecks(name string, val Object, create bool) Object {
 	if ref, ok := e.makeRef(name); ok {
 		log.Debugf("SetNoChecks(%s) created ref %s in %d", name, ref.Name, ref.RefEnv.depth)
 		ref.RefEnv.noteRebind(ref.Name, val)
-		ref.RefEnv.store[ref.Name] = Value(val) // kinda neat to make aliases but it can create loops, so not for now.
-		return val
+		// kinda neat to make aliases but it can create loops, so not for now.
+		return ref.RefEnv.setLocal(ref.Name, Value(val))
 	}
 	log.Debugf("SetNoChecks(%s) brand new to %d and above", name, e.depth)
 	return e.create(name, val)
